@@ -32,8 +32,17 @@ Definition e_run (r : list report * list obs) : sexp := e_pair (e_list e_report)
    5: BST engine run, errors captured        arg (db citations min_crossrefs fields)
    6: Python engine format_bibliography, errors captured    (same)
    7, 8: the same two in strict mode (the first report raises)
-   10: both engine runs (end-to-end stream)             arg (db citations min_crossrefs fields)
+   10: both engine runs from a file read FILTERED by the citations (end-to-end stream)   arg (file citations min_crossrefs fields)
+   11: read_filtered                                        arg (file (citations)|())
+   12: BST fields vs names() of the stock styles, from files  arg (file_bst file_py citations min_crossrefs roles)
    9: Entry._find_field for every entry x every name   arg (db names use_bib_data) *)
+(* the rendered text of the stock styles identifies an entry by a token, not by entry.key: compare modulo case *)
+Definition lower_keys (r : res (list report * list obs)) : res (list report * list obs) :=
+  match r with
+  | Ok (rs, os) => Ok (rs, map (fun o : obs => (lower (fst o), snd o)) os)
+  | other => other
+  end.
+
 Definition dispatch (fn : Z) (a : sexp) : sexp :=
   let d := d_db (d_nth a 0) in
   match fn with
@@ -54,7 +63,16 @@ Definition dispatch (fn : Z) (a : sexp) : sexp :=
            e_list (fun ke : str * entry =>
                      e_list (fun nm => e_res (e_opt e_str) (entry_find_field bd (snd ke) nm)) (d_list d_str (d_nth a 1))) d
   | 10%Z => let cs := d_list d_str (d_nth a 1) in let fs := d_list d_str (d_nth a 3) in
-            L [e_res e_run (bst_run d cs (d_Z (d_nth a 2)) fs); e_res e_run (format_bibliography d cs (d_Z (d_nth a 2)) fs)]
+            L [e_res e_run (bst_run_file d cs (d_Z (d_nth a 2)) fs);
+               e_res e_run (lower_keys (format_bibliography_file d cs (d_Z (d_nth a 2)) fs))]
+  | 11%Z => let w := d_opt (d_list d_str) (d_nth a 1) in
+            let st := read_state w d in
+            L [e_list (fun ke : str * entry => L [e_str (fst ke); e_str (e_key (snd ke)); e_nat (e_id (snd ke))]) (fst (fst st));
+               e_nat (length (snd st))]
+  | 12%Z => let dP := d_db (d_nth a 1) in
+            let cs := d_list d_str (d_nth a 2) in let roles := d_list d_str (d_nth a 4) in
+            L [e_res e_run (bst_run_file d cs (d_Z (d_nth a 3)) roles);
+               e_res e_run (lower_keys (format_bibliography_names (read_filtered (Some cs) dP) cs (d_Z (d_nth a 3)) roles))]
   | _ => L []
   end.
 
